@@ -12,4 +12,9 @@ namespace Tc
 theorem src_getUuid_eq (o : Op) : Src.getUuid o = o.uuid? := by
   cases o <;> rfl
 
+/-- **the source's `Operation::is_undo_point` is the model's `Op.isUndoPoint`** (what decides where an
+    undo stops and what is never sent) -/
+theorem src_isUndoPoint_eq (o : Op) : Src.isUndoPoint o = o.isUndoPoint := by
+  cases o <;> simp [Src.isUndoPoint, Op.isUndoPoint]
+
 end Tc
